@@ -192,6 +192,7 @@ def _closest_index_body(cfg):
                 c.prove(f"ste_call[{key}]:result_is_returned", out[key] is cr)
             if not prove_same_shape(f"post[{key}]:shape_preserved", o, x):
                 continue
+            c.prove(f"post[{key}]:shape_preserved", True)  # all dimensions (syntactically or provably) equal
 
             def pred(val, idx, x=x):
                 xv = x.at_index(tuple(A._raw_index(i) for i in idx))
